@@ -72,7 +72,7 @@ class VerusResult:
         self.lost_hints = {}
 
 
-def run_verus_unit(unit, keep_dir=None, extra_args=None, rlimit=None, mutate=None):
+def run_verus_unit(unit, keep_dir=None, extra_args=None, rlimit=None, mutate=None, canary=None):
     """Extract unit `unit` (units/<unit>.rs.in) from REPO's working tree and verify it."""
     ensure_extractor()
     res = VerusResult(unit)
@@ -83,7 +83,13 @@ def run_verus_unit(unit, keep_dir=None, extra_args=None, rlimit=None, mutate=Non
     try:
         gen = os.path.join(tmp, unit.replace("/", "_") + ".rs")
         meta = os.path.join(tmp, unit.replace("/", "_") + ".meta.json")
-        r = sh([EXTRACT, tmpl, REPO, gen, meta])
+        if canary is None:
+            canary = bool(os.environ.get("VP_CANARY"))
+        xenv = dict(os.environ)
+        xenv.pop("VP_CANARY", None)
+        if canary:
+            xenv["VP_CANARY"] = "1"
+        r = sh([EXTRACT, tmpl, REPO, gen, meta], env=xenv)
         if r.returncode != 0:
             res.status = "undecided"
             m = re.search(r"VP-EXTRACT-ERROR: (.*)", r.stdout + r.stderr, re.S)
@@ -104,7 +110,7 @@ def run_verus_unit(unit, keep_dir=None, extra_args=None, rlimit=None, mutate=Non
         lines = text.split("\n")
         res.tags_present = sorted(set(TAG_RE.findall(text)))
         # canary runs need only the first error of each function (everything after `assert(false)` is vacuous)
-        cmd = ["verus", gen, "--output-json", "--time", "--multiple-errors", "0" if os.environ.get("VP_CANARY") else "8"]
+        cmd = ["verus", gen, "--output-json", "--time", "--multiple-errors", "0" if canary else "8"]
         if rlimit:
             cmd += ["--rlimit", str(rlimit)]
         if extra_args:
@@ -218,7 +224,7 @@ def run_verus_unit(unit, keep_dir=None, extra_args=None, rlimit=None, mutate=Non
         only_rlimit = hard and all(("rlimit" in h.lower() or "resource limit" in h.lower()) for h in hard)
         if hard and only_rlimit and not rlimit and not res.failures:
             # the solver gave up without naming an obligation: one retry with 8x the resource limit
-            res2 = run_verus_unit(unit, keep_dir=keep_dir, extra_args=extra_args, rlimit=80, mutate=mutate)
+            res2 = run_verus_unit(unit, keep_dir=keep_dir, extra_args=extra_args, rlimit=80, mutate=mutate, canary=canary)
             res2.reason = (res2.reason + " (after retry with --rlimit 80)").strip() if res2.status == "undecided" else res2.reason
             return res2
         lost = {it["name"]: it.get("lost_hints") for it in res.items if it.get("lost_hints")}
